@@ -254,8 +254,8 @@ Theorem c07_taint_off_same :
   forall (St : Type) (exchange : St -> request -> response * St) (vre : bool) (coords : N -> list (bytes * bytes)),
     vre = false \/ (forall id, coords id = []) ->
     forall (t : ftree) (x : St),
-    load_t St exchange vre coords t x = ((fst (load St exchange t x), []), snd (load St exchange t x)).
-Proof. exact load_t_off. Qed.
+    load_t St exchange (tainted_indices vre) coords t x = ((fst (load St exchange t x), []), snd (load St exchange t x)).
+Proof. exact load_t_off'. Qed.
 Print Assumptions c07_taint_off_same.
 
 (* taint_exact: which objects a batch entity fetch taints, for every item list (duplicates, null items, items that do not
@@ -266,12 +266,12 @@ Theorem c07_taint_exact :
   forall (vre : bool) (cs : list (bytes * bytes)) (f : fetch) (res : response) (items : list rpath) (data d' : json) (rq : request)
          (bl : list (list rpath)) (s : lstate) (T : list rpath),
     f_kind f = FBatch -> prepare f data items = PLoad d' rq (Some bl) ->
-    let st' := merge_result_t vre cs f res items (Some bl) (s, T) in
+    let st' := merge_result_t (tainted_indices vre) cs f res items (Some bl) (s, T) in
     forall l, In l (snd st') <->
       In l T \/ (ls_hard (fst st') = false /\ batch_merged f res (List.length (rq_reps rq)) /\
                  exists k b, nth_error (rq_reps rq) k = Some b /\ In (N.of_nat k) (tainted_indices vre cs f res) /\
                              in_buckets (snd (batch_prepare (f_rep f) items data [])) b l).
-Proof. exact taint_exact_thm. Qed.
+Proof. intros vre. exact (taint_exact_thm (tainted_indices vre)). Qed.
 Print Assumptions c07_taint_exact.
 
 (* ... where the positions of the request are the buckets: the representations are pairwise distinct, bucket k holds exactly
@@ -290,8 +290,8 @@ Print Assumptions c07_buckets_partition.
 Theorem c07_taints_grow :
   forall (St : Type) (exchange : St -> request -> response * St) (vre : bool) (coords : N -> list (bytes * bytes))
          (t : ftree) (s : lstate) (T : list rpath) (x : St) (l : rpath),
-    In l T -> In l (snd (fst (run_tree_t St exchange vre coords t ((s, T), x)))).
-Proof. exact run_tree_t_grow. Qed.
+    In l T -> In l (snd (fst (run_tree_t St exchange (tainted_indices vre) coords t ((s, T), x)))).
+Proof. intros St exchange vre. exact (run_tree_t_grow St exchange (tainted_indices vre)). Qed.
 Print Assumptions c07_taints_grow.
 
 (* tainted_not_sent: in every state of every run, the items a fetch works on are the selected items that are not tainted;
@@ -305,9 +305,9 @@ Theorem c07_tainted_not_sent :
     (forall l, In l items -> In l (select_items (ls_data s) (f_path f)) /\ is_tainted T l = false) /\
     (forall l t, In t T -> rpath_prefix l t = true -> ~ In l items) /\
     (forall b l, in_buckets (snd (batch_prepare (f_rep f) items (ls_data s) [])) b l -> In l items) /\
-    (forall x rq, In rq (ls_reqs (fst (fst (run_fetch_t St exchange vre coords f ((s, T), x))))) -> ~ In rq (ls_reqs s) ->
+    (forall x rq, In rq (ls_reqs (fst (fst (run_fetch_t St exchange (tainted_indices vre) coords f ((s, T), x))))) -> ~ In rq (ls_reqs s) ->
        exists d' batch, prepare f (ls_data s) items = PLoad d' rq batch).
-Proof. exact tainted_not_sent_thm. Qed.
+Proof. intros St exchange vre. exact (tainted_not_sent_thm St exchange (tainted_indices vre)). Qed.
 Print Assumptions c07_tainted_not_sent.
 
 (* untainted_same: a partial-data fault changes nothing at the objects it does not name.  For the items selectItemsForPath
@@ -332,6 +332,19 @@ Theorem c07_untainted_same :
       get_loc l (ls_data sP) = get_loc l (ls_data s0).
 Proof. exact untainted_same_items. Qed.
 Print Assumptions c07_untainted_same.
+
+(* HISTORICAL (before commit 00d2cc7 in loader.go): a single EntityFetch never tainted anything -- its response data path
+   selects data._entities.0 and the error path ["_entities",0,"zip"] was resolved against that entity -- so with the option on
+   the dependant was still sent with the failed input as null.  [run_t_v0] is the run with that way of computing the indices;
+   for the repaired loader the same plan and fault give: a tainted, two requests, a subset (Example p7_entity_fetch_taints). *)
+Theorem c07_taint_single_entity_refuted :
+  exists answer root_answer kind_of coords t P,
+    forallb (fetch_wf kind_of) (fetches_of t) = true /\
+    snd (run_t_v0 answer root_answer kind_of true coords no_faults P t) = [] /\
+    requests_subset_b (ls_reqs (fst (run_t_v0 answer root_answer kind_of true coords no_faults no_partials t)))
+                      (ls_reqs (fst (run_t_v0 answer root_answer kind_of true coords no_faults P t))) = false.
+Proof. exact taint_single_entity_refuted_proof. Qed.
+Print Assumptions c07_taint_single_entity_refuted.
 
 (* non-vacuity (ProofsTaintExamples, plan 6: l = [null, A1, A1, A2]; f1's request is [A1, A2]; position 1 = A2 = list position 3):
    the hypotheses of c07_taint_exact / c07_untainted_same hold, the tainted index is 1, the tainted object is l[3] and
